@@ -327,6 +327,7 @@ def c_side(ctx, gen_out, flow_files):
                 ctx.report(f"kernel and control plane compute different bytes for the same {kind}: C `{got[:200]}` Go `{str(want)[:200]}` ({ops[i][:160]})",
                            {"kind": kind, "c_op": ops[i], "c": got, "go": want})
     ctx.cov["cross_checked_entities"] = len(cross)
+    ctx.samples += ["%s -> %s" % (ops[i][:120], impl[i][:200]) for i, _, _ in cross[:2] + cross[-2:] if i < len(impl)]
     inc("cross.total", len(cross))
     # second opinion on the BPF-target layouts
     dump = record_layout_dump(ctx)
@@ -401,7 +402,7 @@ def run(ctx):
             return 2
         total += diff(ctx, "go-" + v, ops, ops[:-4] + ".impl", ops[:-4] + ".model")
         stats[v] = json.load(open(os.path.join(ctx.out, f"c19go_{v}.stats.json")))
-    ctx.samples = stats[variants[0]]["samples"]
+    ctx.samples = stats[variants[0]]["samples"][:4]
     ctx.cov["input_distribution"] = {"go-" + v: s["counters"] for v, s in stats.items()}
     # every Go data type of the tables was looked at in-process (except the function-local PARAM literal)
     seen = set()
@@ -431,4 +432,5 @@ def run(ctx):
     return ctx.finish(rule="table items = one (pairing, GOARCH) layout obligation / constant pair / limit / map; "
                            "ops = one real-code evaluation (Go in-process / native tproxy.c) compared with the model; "
                            "distinct_nontrivial = table items + distinct op lines",
-                      evaluations=total, distinct=n_items + len(ctx.c19_distinct))
+                      evaluations=total, distinct=n_items + len(ctx.c19_distinct),
+                      checker_cmd="python3 /verif/translators/c19_regen.py && cd /verif/lean && lake build DaeVerif.C19.Props && lake env lean <#audit_namespace DaeVerif.C19.Props>")
